@@ -270,26 +270,7 @@ func r04_3(c *Ctx, rule string) {
 	if rrun != nil {
 		lit := c.ClosureCalling(rule, rrun, "fsutil.doubleWalkDiff")
 		if lit != nil {
-			var def *ssa.Defer
-			var dlit *ssa.Function
-			eng.Instrs(lit, func(in ssa.Instruction) {
-				d, ok := in.(*ssa.Defer)
-				if !ok {
-					return
-				}
-				if mc, ok := d.Call.Value.(*ssa.MakeClosure); ok {
-					f := c.P.ClosureFn(mc)
-					sends := false
-					eng.Instrs(f, func(x ssa.Instruction) {
-						if c.sendsPacket(x, "PACKET_ERR") {
-							sends = true
-						}
-					})
-					if sends {
-						def, dlit = d, f
-					}
-				}
-			})
+			def, dlit := c.actingDefer(lit, func(x ssa.Instruction) bool { return c.sendsPacket(x, "PACKET_ERR") })
 			con := c.name(lit) + "/err-defer"
 			if def == nil {
 				c.R.Fail(rule, con, c.P.Pos(lit.Pos()), "the diff goroutine has no deferred function that sends PACKET_ERR: a local failure (disk write, validator) is not reported to the sender")
@@ -313,72 +294,125 @@ func r04_3(c *Ctx, rule string) {
 	}
 }
 
-// deferActsOnOwnResult decides, for a deferred function literal lit installed
-// by def, that with a non-nil named error result of the installing function
-// the action isT is reached and cannot be skipped: the cell the literal tests
-// is the named result of the function that installs the defer (not some other
-// error variable in scope - an outer err is nil for good at that point), and
-// with every nil test of that cell pinned to "non-nil" no return of the
-// literal is reachable without passing isT. The result cell is written by the
-// installing function, so its loads carry register keys: the nil tests are
-// pinned by register. Returns (hit, undecided, cell key); hit is nil when the
-// action can be skipped or the cell is not tested at all.
-func (c *Ctx) deferActsOnOwnResult(def *ssa.Defer, lit *ssa.Function, isT func(ssa.Instruction) bool) (*eng.Hit, bool, string) {
-	cellKey := ""
+// actingDefer finds the defer statement of fn whose deferred function - a
+// literal, or a function of the module called directly (`defer
+// x.onFailure(&retErr)`) - performs isAction (helpers it walks through
+// included). It returns the statement and the body analysed.
+func (c *Ctx) actingDefer(fn *ssa.Function, isAction func(ssa.Instruction) bool) (*ssa.Defer, *ssa.Function) {
+	var def *ssa.Defer
+	var body *ssa.Function
+	eng.Instrs(fn, func(in ssa.Instruction) {
+		d, ok := in.(*ssa.Defer)
+		if !ok {
+			return
+		}
+		var f *ssa.Function
+		if mc, isMC := d.Call.Value.(*ssa.MakeClosure); isMC {
+			f = c.P.ClosureFn(mc)
+		} else if g := d.Call.StaticCallee(); g != nil && c.P.InModule(g) {
+			f = g
+		}
+		if f == nil {
+			return
+		}
+		acts := false
+		eng.Instrs(f, func(x ssa.Instruction) {
+			if isAction(x) {
+				acts = true
+			}
+		})
+		if acts {
+			def, body = d, f
+		}
+	})
+	return def, body
+}
+
+// deferActsOnOwnResult decides, for the deferred function body installed by
+// def, that with a non-nil named error result of the installing function the
+// action isT is reached and cannot be skipped: what the body tests is the
+// named result of the function that installs the defer (not some other error
+// variable in scope - an outer err is nil for good at that point), read when
+// the deferred function runs - through the captured variable, or through its
+// address handed to the deferred call - and with every nil test of that value
+// pinned to "non-nil" no return of the body is reachable without passing isT.
+// The value may travel into a helper as an argument before it is tested. The
+// result cell is written by the installing function, so its loads carry
+// register keys: the nil tests are pinned by register. Returns (hit,
+// undecided, cell name); hit is nil when the action can be skipped or the
+// result is not tested at all.
+func (c *Ctx) deferActsOnOwnResult(def *ssa.Defer, body *ssa.Function, isT func(ssa.Instruction) bool) (*eng.Hit, bool, string) {
 	resName := ""
 	if rs := def.Parent().Signature.Results(); rs.Len() == 1 {
 		resName = rs.At(0).Name()
 	}
+	isResult := func(v ssa.Value) bool {
+		a, ok := v.(*ssa.Alloc)
+		return ok && a.Parent() == def.Parent() && resName != "" && a.Comment == resName
+	}
+	// the cell inside the body: a free variable bound to the result, or a
+	// pointer parameter handed its address
+	var cell ssa.Value
 	if mc, ok := def.Call.Value.(*ssa.MakeClosure); ok {
-		for i, fv := range lit.FreeVars {
-			if !isErrorPtr(fv.Type()) || i >= len(mc.Bindings) {
-				continue
+		for i, fv := range body.FreeVars {
+			if isErrorPtr(fv.Type()) && i < len(mc.Bindings) && isResult(mc.Bindings[i]) {
+				cell = fv
 			}
-			if a, ok := mc.Bindings[i].(*ssa.Alloc); ok && a.Parent() == def.Parent() && resName != "" && a.Comment == resName {
-				cellKey = "(*fv:" + fv.Name() + "==nil)"
+		}
+	} else if len(body.Params) == len(def.Call.Args) {
+		for i, a := range def.Call.Args {
+			if isErrorPtr(a.Type()) && isResult(a) {
+				cell = body.Params[i]
 			}
 		}
 	}
-	if cellKey == "" {
+	if cell == nil {
 		return nil, false, ""
 	}
-	hit, und := c.ReachableUnder(lit, map[string]bool{cellKey: false}, nil, isT)
-	if hit == nil || und {
-		return hit, und, cellKey
+	isCellLoad := func(v ssa.Value) bool {
+		ld, ok := v.(*ssa.UnOp)
+		return ok && ld.Op == token.MUL && ld.X == cell
 	}
+	hit, und := c.ReachableUnder(body, nil, nil, isT)
+	if hit == nil || und {
+		return hit, und, cell.Name()
+	}
+	defer c.scope(body)()
+	y := c.explorer(body)
 	pins := map[string]bool{}
-	eng.Instrs(lit, func(in ssa.Instruction) {
+	eng.Instrs(body, func(in ssa.Instruction) {
 		b, ok := in.(*ssa.BinOp)
 		if !ok || (b.Op != token.NEQ && b.Op != token.EQL) {
 			return
 		}
 		for i, o := range []ssa.Value{b.X, b.Y} {
-			ld, ok := o.(*ssa.UnOp)
-			if !ok || ld.Op != token.MUL {
+			k, isK := []ssa.Value{b.Y, b.X}[i].(*ssa.Const)
+			if !isK || !k.IsNil() {
 				continue
 			}
-			fv, ok := ld.X.(*ssa.FreeVar)
-			if !ok || "(*fv:"+fv.Name()+"==nil)" != cellKey {
-				continue
-			}
-			if k, ok := []ssa.Value{b.Y, b.X}[i].(*ssa.Const); ok && k.IsNil() {
-				pins["@"+b.Name()] = b.Op == token.NEQ
+			if isCellLoad(o) || c.DerivesFrom(o, isCellLoad, 3) {
+				pins[y.RegKey(b)] = b.Op == token.NEQ
 			}
 		}
 	})
-	y := c.explorer(lit)
+	if len(pins) == 0 {
+		return nil, false, cell.Name()
+	}
 	y.Assume = pins
 	y.Barrier = func(in ssa.Instruction, st *eng.State) bool { return isT(in) }
-	y.Target = func(in ssa.Instruction, st *eng.State) bool { return isReturn(in) }
+	y.Target = func(in ssa.Instruction, st *eng.State) bool {
+		r, ok := in.(*ssa.Return)
+		return ok && r.Parent() == body
+	}
 	y.StopAtTarget = true
 	skips := y.Run()
 	if y.Exhausted {
-		return nil, true, cellKey
+		return nil, true, cell.Name()
 	}
-	if len(skips) > 0 || len(pins) == 0 {
-		return nil, false, cellKey
+	if len(skips) > 0 {
+		return nil, false, cell.Name()
 	}
-	return hit, false, cellKey
+	return hit, false, cell.Name()
 }
 
 func isErrorPtr(t types.Type) bool {
@@ -752,6 +786,13 @@ func r04_6(c *Ctx, rule string) {
 				if i := strings.Index(fp, ":"); i > 0 && wfiles[fp[:i]] {
 					_, _, own = c.errValueOf(call)
 				}
+				// (a function that is handed an error and returns one
+				// transforms errors, it is not a source of failures)
+				for _, q := range f.Params {
+					if types.TypeString(q.Type(), nil) == "error" {
+						own = false
+					}
+				}
 			}
 			if !wwant[name] && !own && name != "param:fn" && name != "freevar:fn" && name != "local:fn" {
 				continue
@@ -893,20 +934,7 @@ func r04_9(c *Ctx, rule string) {
 	c.R.Rule(rule, "DiskWriter.HandleChange installs, before any filesystem mutation, a deferred function that calls the writer's cancel when the change fails; Receive defers the cancel of the context it derives")
 	hc := c.Fn(rule, "fsutil.(*DiskWriter).HandleChange")
 	if hc != nil {
-		var def *ssa.Defer
-		var lit *ssa.Function
-		eng.Instrs(hc, func(in ssa.Instruction) {
-			d, ok := in.(*ssa.Defer)
-			if !ok {
-				return
-			}
-			if mc, ok := d.Call.Value.(*ssa.MakeClosure); ok {
-				f := c.P.ClosureFn(mc)
-				if len(c.P.CallsTo(f, "field:fsutil.DiskWriter.cancel")) > 0 {
-					def, lit = d, f
-				}
-			}
-		})
+		def, lit := c.actingDefer(hc, c.callPred("field:fsutil.DiskWriter.cancel"))
 		con := c.name(hc) + "/cancel-on-failure"
 		if def == nil {
 			c.R.Fail(rule, con, c.P.Pos(hc.Pos()), "HandleChange has no deferred function that cancels the writer context on failure: after a failed change the asynchronous writers keep waiting for data that will never be requested")
@@ -1435,11 +1463,48 @@ func r04_17(c *Ctx, rule string) {
 					if !isS || st.Addr != ssa.Value(fv) {
 						continue
 					}
-					// a value made from the old error (wrapping) keeps it
-					if c.DerivesFrom(st.Val, func(v ssa.Value) bool {
+					isOld := func(v ssa.Value) bool {
 						ld, isL := v.(*ssa.UnOp)
 						return isL && ld.Op == token.MUL && ld.X == ssa.Value(fv)
-					}, 4) {
+					}
+					// the new value comes from a function of the module that is
+					// handed the old one (`retErr = skipIfNotExist(retErr)`):
+					// whatever that function returns instead of its argument it
+					// returns on the true edge of a predicate on its argument
+					if hc, isC := st.Val.(*ssa.Call); isC {
+						if h := hc.Common().StaticCallee(); h != nil && c.P.InModule(h) && len(h.Params) == len(hc.Call.Args) {
+							var ep *ssa.Parameter
+							for i, a := range hc.Call.Args {
+								if isOld(a) {
+									ep = h.Params[i]
+								}
+							}
+							if ep != nil {
+								for _, hi := range allInstrsShallow(h) {
+									r, isR := hi.(*ssa.Return)
+									if !isR || len(r.Results) != 1 {
+										continue
+									}
+									if c.DerivesFrom(r.Results[0], func(v ssa.Value) bool { return v == ssa.Value(ep) }, 4) {
+										continue
+									}
+									n++
+									ok := onTrueEdgeOf(r.Block(), func(call *ssa.Call) bool {
+										for _, arg := range call.Call.Args {
+											if arg == ssa.Value(ep) {
+												return true
+											}
+										}
+										return false
+									})
+									c.R.Check(ok, rule, c.name(h)+"/result-replaced@"+blockName(r), c.pos(r), "the error is replaced only on the true edge of a predicate on that very error", "a function that rewrites a walk callback's error result returns another value without a dominating test of its argument: every failure (cancellation, a failed send, a failed stat) is swallowed as if the entry had vanished")
+								}
+								continue
+							}
+						}
+					}
+					// a value made from the old error (wrapping) keeps it
+					if c.DerivesFrom(st.Val, isOld, 4) {
 						continue
 					}
 					n++
